@@ -14,7 +14,7 @@ TECHNIQUE = "explicit-state model checking (BFS closure over all strobe patterns
 
 
 def configs(tier):
-    ns = range(1, 9) if tier == "quick" else range(1, 15)
+    ns = range(1, 7) if tier == "quick" else range(1, 15)
     out = []
     for n in ns:
         for delay in (False, True):
@@ -58,12 +58,12 @@ def _build(cfg):
 
 
 class StretchSpec(Spec):
-    n_validate = 6
+    n_validate = 3
 
     def __init__(self, cfg, tier):
         super().__init__(cfg, tier)
         self.n = cfg["to_cycles"]
-        self.time_budget = 30 if tier == "quick" else 600
+        self.time_budget = 150 if tier == "quick" else 800
 
     def build(self):
         m, strobe, output = _build(self.cfg)
